@@ -232,23 +232,15 @@ def pyNew (lines : List (List Char)) (start : Nat) : PyM (Except BlockDiag (List
     | none => .ok (.error .unclosed)
     | some r => .ok (.ok r)
 
-/-- `_extract_py_old_syntax`: base indentation is that of the first non-blank line; a block that is never
-closed by `>>` silently runs to the end of the text (and reports one line more than there is). -/
-def pyOldGo : List (List Char) → Option Nat → List (List Char) → List (List Char) × Nat
-  | [], _, acc => (acc.reverse, acc.length + 2)
-  | l :: ls, base, acc =>
-    if stripL l == ">>".toList then (acc.reverse, acc.length + 2)
-    else
-      let blank := (stripL l).isEmpty
-      let base' := if base.isNone && !blank then some (l.length - (lstripL l).length) else base
-      let out :=
-        match base', blank with
-        | some b, false => if l.length ≥ b && (stripL (l.take b)).isEmpty then l.drop b else l
-        | _, true => []
-        | none, false => l
-      pyOldGo ls base' (out :: acc)
+/-- `_extract_py_old_syntax`: the lines up to the closing `>>` are dedented by the shared helper; a block that is
+never closed by `>>` silently runs to the end of the text (and reports one line more than there is). -/
+def pyOldGo : List (List Char) → List (List Char) → List (List Char) × Nat
+  | [], acc => (dedent acc.reverse, acc.length + 2)
+  | l :: ls, acc =>
+    if stripL l == ">>".toList then (dedent acc.reverse, acc.length + 2)
+    else pyOldGo ls (l :: acc)
 
 def pyOld (lines : List (List Char)) (start : Nat) : List (List Char) × Nat :=
-  pyOldGo (lines.drop (start + 1)) none []
+  pyOldGo (lines.drop (start + 1)) []
 
 end Bardic.Parser
